@@ -8,6 +8,21 @@ import KafkaVerif.Lemmas.RecordBatchSpec
 namespace KV.Model.RecordReader
 open KV KV.RW KV.Spec.RB
 
+/-- the masks in the Go sources are the Spec's (fails to check when a mask in protocol/record.go changes) -/
+@[simp] theorem libCodecOf_eq (a : Int) : libCodecOf a = codecOf a := by
+  simp only [libCodecOf, codecOf, Gen.RecordConsts.compressionMask]; rfl
+@[simp] theorem libIsControl_eq (a : Int) : libIsControl a = isControl a := by
+  simp only [libIsControl, isControl, Gen.RecordConsts.controlConst]; rfl
+/-- the masks the Client-path decoders test are the timestamp-type bit of the Spec (breaks when the test disappears) -/
+@[simp] theorem libLogAppendV2_eq (a : Int) : libLogAppendV2 a = logAppend a := by
+  simp [libLogAppendV2, maskTest, Gen.RecordConsts.stampMasksV2, logAppend]
+@[simp] theorem libLogAppendV1_eq (a : Int) : libLogAppendV1 a = logAppend a := by
+  simp [libLogAppendV1, maskTest, Gen.RecordConsts.stampMasksV1, logAppend]
+
+theorem map_stamp_recOfV2c (f : FrameV2) (xs : List RecV2) :
+    (xs.map (recOfV2c f)).map (stamp (logAppend f.attributes) f.maxTs) = xs.map (recOfV2 f) := by
+  simp [List.map_map, recOfV2, Function.comp_def]
+
 theorem libVarBytes_varbytes (b : Option Bytes) (r : Bytes) : libVarBytes (varbytes b ++ r) = some (b, r) := by
   cases b with
   | none => simp [varbytes, libVarBytes, readVarint_varint]
@@ -39,12 +54,24 @@ theorem libRecord_encRec (base first : Int) (x : RecV2) (r : Bytes) :
     simp [this]
 
 theorem libRecords_encRecs (f : FrameV2) (xs : List RecV2) :
-    libRecords f.baseOffset f.firstTs xs.length (encRecs xs) = xs.map (recOfV2 f) := by
+    libRecords f.baseOffset f.firstTs xs.length (encRecs xs) = xs.map (recOfV2c f) := by
   induction xs with
   | nil => simp [libRecords]
   | cons x xs ih =>
     simp only [List.length_cons, libRecords, encRecs, libRecord_encRec, List.map_cons, ih]
-    simp [recOfV2]
+    simp [recOfV2c]
+
+theorem encRec_pos (r : RecV2) : 0 < (encRec r).length := by
+  simp only [encRec, List.length_append, varint_length]
+  have := uvarintLen_pos (zigzag ((recBody r).length : Int))
+  simp only [varintLen]; omega
+
+theorem encRecs_length_ge (xs : List RecV2) : xs.length ≤ (encRecs xs).length := by
+  induction xs with
+  | nil => simp
+  | cons x xs ih =>
+    have := encRec_pos x
+    simp only [encRecs, List.length_cons, List.length_append]; omega
 
 /-- a batch as a broker stores it: well-formed header, the payload (after decompression) is the encoding of `xs` -/
 structure GoodBatch (dec : Int → Bytes → Option Bytes) (f : FrameV2) (xs : List RecV2) : Prop where
@@ -83,10 +110,14 @@ theorem libReadV2_bytes (crc : Bytes → Nat) (dec : Int → Bytes → Option By
   simp only [hnot, if_false]
   simp only [List.append_assoc] at htake
   rw [htake]
-  simp only [readI32_i32 _ _ h2, readI8_i8 _ _ hm, readU32_u32 _ _ hc, readFrameBody_frameBody f hw, h.payload]
+  simp only [readI32_i32 _ _ h2, readI8_i8 _ _ hm, readU32_u32 _ _ hc, readFrameBody_frameBody f hw, libCodecOf_eq,
+    libIsControl_eq, h.payload]
   have hcnt : ¬ f.count < 0 := by rw [h.count]; omega
   by_cases hcrc : crc (frameBody f) = c'
-  · simp [hcrc, hcnt, h.count, libRecords_encRecs]
+  · have hx : ¬ ((xs.length : Int) < 0 ∨ (xs.length : Int) > ((encRecs xs).length : Int)) := by
+      have := encRecs_length_ge xs; omega
+    simp only [hcrc, ne_eq, not_true_eq_false, if_false, h.count, hx, Int.toNat_natCast, libRecords_encRecs,
+      libLogAppendV2_eq, map_stamp_recOfV2c, if_true]
   · simp [hcrc]
 
 theorem libReadV2_encFrame (crc : Bytes → Nat) (hcrc : ∀ b, crc b < M32) (dec : Int → Bytes → Option Bytes)
@@ -114,29 +145,130 @@ theorem libReadMsg_encMsg (crc : Bytes → Nat) (hcrc : ∀ b, crc b < M32) (m :
   rw [htake]
   simp [readU32_u32 _ _ (hcrc _), readMsgBody_msgBody m hw]
 
+theorem lastOff_eq (ms : List Msg) : lastOff ms = lastOffset ms := by
+  induction ms with
+  | nil => rfl
+  | cons m ms ih =>
+    cases ms with
+    | nil => rfl
+    | cons m' ms' => simp only [lastOff, lastOffset] at ih ⊢; exact ih
+
+theorem encSet_msgs_cons (c : Crcs) (m : Msg) (ms : List Msg) :
+    encSet c ((m :: ms).map Entry.msg) = encMsg c.ieee m ++ encSet c (ms.map Entry.msg) := rfl
+
+theorem libInner_encSet (c : Crcs) (h1 : ∀ b, c.ieee b < M32) (inner : List Msg) (hwf : ∀ x ∈ inner, x.WF)
+    (fuel : Nat) (hf : inner.length ≤ fuel) : libInner c.ieee fuel (encSet c (inner.map Entry.msg)) = some inner := by
+  induction inner generalizing fuel with
+  | nil => cases fuel <;> simp [libInner, encSet]
+  | cons m ms ih =>
+    cases fuel with
+    | zero => simp at hf
+    | succ fuel =>
+      rw [encSet_msgs_cons]
+      have hw := hwf m (by simp)
+      cases hbs : encMsg c.ieee m ++ encSet c (ms.map Entry.msg) with
+      | nil =>
+        have := congrArg List.length hbs
+        simp [encMsg] at this
+      | cons x xs =>
+        simp only [libInner]
+        rw [← hbs, libReadMsg_encMsg c.ieee h1 m hw]
+        simp only
+        rw [ih (fun x hx => hwf x (by simp [hx])) fuel (by simp only [List.length_cons] at hf; omega)]
+
+/-- a v1 wrapper as a broker stores it: the (decompressed) value is the message set of the inner messages, which
+carry relative offsets; the wrapper carries the absolute offset of the last one -/
+structure GoodWrapper (c : Crcs) (dec : Int → Bytes → Option Bytes) (m : Msg) (inner : List Msg) : Prop where
+  wf : m.WF
+  magic : m.magic = 1
+  codec : codecOf m.attributes ≠ 0
+  value : ∃ v, m.value = some v ∧ dec (codecOf m.attributes) v = some (encSet c (inner.map Entry.msg))
+  innerWF : ∀ x ∈ inner, x.WF ∧ codecOf x.attributes = 0
+  nonempty : inner ≠ []
+  base : m.offset = 0 → lastOffset inner = 0
+
+/-- the records of a wrapper: inner relative offsets made absolute -/
+def wrapperRecs (m : Msg) (inner : List Msg) : List Rec :=
+  inner.map fun x => stamp (logAppend m.attributes) m.ts { recOfMsg x with offset := (m.offset - lastOffset inner) + x.offset }
+
+theorem filterMap_msgs (f : Entry → Option Msg) (hf : ∀ x, f (.msg x) = some x) (ms : List Msg) :
+    (ms.map Entry.msg).filterMap f = ms := by
+  induction ms with
+  | nil => rfl
+  | cons m ms ih => simp [List.filterMap_cons, hf, ih]
+
+theorem spec_flatten_wrapper (c : Crcs) (h1 : ∀ b, c.ieee b < M32) (h2 : ∀ b, c.castagnoli b < M32)
+    (dec : Int → Bytes → Option Bytes) (m : Msg) (inner : List Msg) (h : GoodWrapper c dec m inner) :
+    flattenEntry c dec (.msg m) = some (false, wrapperRecs m inner) := by
+  obtain ⟨v, hv, hd⟩ := h.value
+  have hrs : readSet c (encSet c (inner.map Entry.msg)).length (encSet c (inner.map Entry.msg)) = some (inner.map Entry.msg) :=
+    decodeSet_encSet c h1 h2 _ (fun e he => by
+      simp only [List.mem_map] at he
+      obtain ⟨x, hx, rfl⟩ := he
+      exact (h.innerWF x hx).1)
+  have hany : (inner.any fun x => decide (codecOf x.attributes ≠ 0)) = false := by
+    rw [List.any_eq_false]
+    intro x hx
+    simp [(h.innerWF x hx).2]
+  have hm0 : ¬ m.magic = 0 := by rw [h.magic]; decide
+  simp only [flattenEntry, h.codec, if_false, hv, hd, hrs]
+  rw [filterMap_msgs _ (fun x => rfl) inner]
+  simp only [List.length_map, ne_eq, not_true_eq_false, if_false, hm0, wrapperRecs]
+  have hany' : (inner.any fun x => decide ¬codecOf x.attributes = 0) = false := by simpa using hany
+  simp only [hany', Bool.false_eq_true, if_false]
+
+theorem libReadV1_wrapper (c : Crcs) (h1 : ∀ b, c.ieee b < M32) (dec : Int → Bytes → Option Bytes) (m : Msg)
+    (inner : List Msg) (h : GoodWrapper c dec m inner) (r : Bytes) :
+    libReadV1 c.ieee dec (encMsg c.ieee m ++ r) = .ok false (wrapperRecs m inner) r := by
+  obtain ⟨v, hv, hd⟩ := h.value
+  have hin := libInner_encSet c h1 inner (fun x hx => (h.innerWF x hx).1) (encSet c (inner.map Entry.msg)).length
+    (by have := encSet_length_ge c (inner.map Entry.msg); simpa using this)
+  simp only [libReadV1, libReadMsg_encMsg c.ieee h1 m h.wf r, libCodecOf_eq, h.codec, if_false, hv, hd, hin]
+  have hon : (decide (m.magic = 1) && logAppend m.attributes) = logAppend m.attributes := by simp [h.magic]
+  simp only [libLogAppendV1_eq, hon]
+  by_cases h0 : m.offset = 0
+  · have hl := h.base h0
+    simp only [h0, ne_eq, not_true_eq_false, false_and, if_false, wrapperRecs, hl]
+    congr 1
+    apply List.map_congr_left
+    intro x _
+    simp [recOfMsg]
+  · simp only [ne_eq, h0, not_false_eq_true, h.nonempty, and_self, if_true, wrapperRecs, lastOff_eq]
+    congr 1
+    apply List.map_congr_left
+    intro x _
+    congr 1
+    simp only [recOfMsg, Rec.mk.injEq, and_true]
+    omega
+
 /-- entries of a valid response and the logical records they stand for -/
-inductive GoodEntry (dec : Int → Bytes → Option Bytes) : Entry → Bool × List Rec → Prop where
+inductive GoodEntry (c : Crcs) (dec : Int → Bytes → Option Bytes) : Entry → Bool × List Rec → Prop where
   | batch (f : FrameV2) (xs : List RecV2) : GoodBatch dec f xs →
-      GoodEntry dec (.batch f) (isControl f.attributes, xs.map (recOfV2 f))
-  | msg (m : Msg) : m.WF → codecOf m.attributes = 0 → GoodEntry dec (.msg m) (false, [recOfMsg m])
+      GoodEntry c dec (.batch f) (isControl f.attributes, xs.map (recOfV2 f))
+  | msg (m : Msg) : m.WF → codecOf m.attributes = 0 → GoodEntry c dec (.msg m) (false, [recOfMsg m])
+  | wrapper (m : Msg) (inner : List Msg) : GoodWrapper c dec m inner →
+      GoodEntry c dec (.msg m) (false, wrapperRecs m inner)
 
 /-- a valid response: entries paired with the logical records they stand for -/
-inductive AllGood (dec : Int → Bytes → Option Bytes) : List Entry → List (Bool × List Rec) → Prop where
-  | nil : AllGood dec [] []
+inductive AllGood (c : Crcs) (dec : Int → Bytes → Option Bytes) : List Entry → List (Bool × List Rec) → Prop where
+  | nil : AllGood c dec [] []
   | cons {e : Entry} {g : Bool × List Rec} {es : List Entry} {gs : List (Bool × List Rec)} :
-      GoodEntry dec e g → AllGood dec es gs → AllGood dec (e :: es) (g :: gs)
+      GoodEntry c dec e g → AllGood c dec es gs → AllGood c dec (e :: es) (g :: gs)
 
-theorem GoodEntry.wf {dec : Int → Bytes → Option Bytes} {e : Entry} {g : Bool × List Rec} (h : GoodEntry dec e g) :
+theorem GoodEntry.wf {c : Crcs} {dec : Int → Bytes → Option Bytes} {e : Entry} {g : Bool × List Rec} (h : GoodEntry c dec e g) :
     match e with | .msg m => m.WF | .batch f => f.WF := by
   cases h with
   | batch f xs hb => exact hb.wf
   | msg m hw _ => exact hw
+  | wrapper m inner hw => exact hw.wf
 
-theorem spec_flatten_entry (c : Crcs) (dec : Int → Bytes → Option Bytes) (e : Entry) (g : Bool × List Rec)
-    (h : GoodEntry dec e g) : flattenEntry c dec e = some g := by
+theorem spec_flatten_entry (c : Crcs) (h1 : ∀ b, c.ieee b < M32) (h2 : ∀ b, c.castagnoli b < M32)
+    (dec : Int → Bytes → Option Bytes) (e : Entry) (g : Bool × List Rec)
+    (h : GoodEntry c dec e g) : flattenEntry c dec e = some g := by
   cases h with
   | batch f xs hb => exact spec_flatten_batch c dec f xs hb
   | msg m hw hc => simp [flattenEntry, hc]
+  | wrapper m inner hw => exact spec_flatten_wrapper c h1 h2 dec m inner hw
 
 theorem encEntry_length_ge17 (c : Crcs) (e : Entry) : 17 ≤ (encEntry c e).length := by
   cases e with
@@ -145,7 +277,7 @@ theorem encEntry_length_ge17 (c : Crcs) (e : Entry) : 17 ≤ (encEntry c e).leng
   | batch f => simp [encEntry, encFrame, frameBody]; omega
 
 theorem libStep_entry (c : Crcs) (h1 : ∀ b, c.ieee b < M32) (h2 : ∀ b, c.castagnoli b < M32)
-    (dec : Int → Bytes → Option Bytes) (e : Entry) (g : Bool × List Rec) (hg : GoodEntry dec e g) (rest : Bytes)
+    (dec : Int → Bytes → Option Bytes) (e : Entry) (g : Bool × List Rec) (hg : GoodEntry c dec e g) (rest : Bytes)
     (fuel : Nat) :
     libReadSet c dec (fuel + 1) (encEntry c e ++ rest) = g :: libReadSet c dec fuel rest := by
   have hlen := encEntry_length_ge17 c e
@@ -180,11 +312,20 @@ theorem libStep_entry (c : Crcs) (h1 : ∀ b, c.ieee b < M32) (h2 : ∀ b, c.cas
         rcases hw.2.1 with h0 | h1'
         · simp [i8_eq, h0] at this; rw [← this]; decide
         · simp [i8_eq, h1'] at this; rw [← this]; decide
-      simp only [encEntry, hb, hne, if_false, hb01, if_true, libReadV1, libReadMsg_encMsg c.ieee h1 m hw rest, hc]
+      simp only [encEntry, hb, hne, if_false, hb01, if_true, libReadV1, libReadMsg_encMsg c.ieee h1 m hw rest, libCodecOf_eq, hc]
+    | wrapper m inner hw =>
+      obtain ⟨b, hb, hne⟩ := magicOf_encMsg c.ieee m rest hw.wf.2.1
+      simp only [magicOf] at hb
+      have hb01 : b = 0 ∨ b = 1 := by
+        have := hb
+        simp only [encMsg, msgBody, List.append_assoc] at this
+        rw [getElem?_skip _ _ _ (by simp), getElem?_skip _ _ _ (by simp), getElem?_skip _ _ _ (by simp)] at this
+        simp [i8_eq, hw.magic] at this; rw [← this]; decide
+      simp only [encEntry, hb, hne, if_false, hb01, if_true, libReadV1_wrapper c h1 dec m inner hw rest]
 
 theorem libReadSet_encSet (c : Crcs) (h1 : ∀ b, c.ieee b < M32) (h2 : ∀ b, c.castagnoli b < M32)
     (dec : Int → Bytes → Option Bytes) (es : List Entry) (gs : List (Bool × List Rec))
-    (h : AllGood dec es gs) (tail : Bytes) (fuel : Nat) (hf : es.length ≤ fuel) :
+    (h : AllGood c dec es gs) (tail : Bytes) (fuel : Nat) (hf : es.length ≤ fuel) :
     libReadSet c dec fuel (encSet c es ++ tail) = gs ++ libReadSet c dec (fuel - es.length) tail := by
   induction h generalizing fuel with
   | nil => simp [encSet]
@@ -197,10 +338,11 @@ theorem libReadSet_encSet (c : Crcs) (h1 : ∀ b, c.ieee b < M32) (h2 : ∀ b, c
       rw [ih fuel (by simp only [List.length_cons] at hf; omega)]
       simp
 
-theorem flattenAll_good (c : Crcs) (dec : Int → Bytes → Option Bytes) (es : List Entry) (gs : List (Bool × List Rec))
-    (h : AllGood dec es gs) : flattenAll c dec es = some gs := by
+theorem flattenAll_good (c : Crcs) (h1 : ∀ b, c.ieee b < M32) (h2 : ∀ b, c.castagnoli b < M32)
+    (dec : Int → Bytes → Option Bytes) (es : List Entry) (gs : List (Bool × List Rec))
+    (h : AllGood c dec es gs) : flattenAll c dec es = some gs := by
   induction h with
   | nil => rfl
-  | cons hg _ ih => simp [flattenAll, spec_flatten_entry c dec _ _ hg, ih]
+  | cons hg _ ih => simp [flattenAll, spec_flatten_entry c h1 h2 dec _ _ hg, ih]
 
 end KV.Model.RecordReader
